@@ -176,6 +176,7 @@ def reconnect_chain(n):
     def fn(w):
         kind = w.pick(["threaded", "async-serial", "async-tcp"], "transport")
         env = C.make_env(w)
+        env.frozen = 0.0
         with env.installed():
             if kind == "async-tcp":
                 gw = tcp_gateway(w, "async")
@@ -204,22 +205,35 @@ def reconnect_chain(n):
                     if t.started:
                         t.run_now()
             try:
+                def armed():
+                    return [h for h in env.loop.handles if not h.cancelled]
                 for i in range(n):
                     w.call(proto.connection_made, C.FakeConn(f"conn{i}"))
+                    if kind == "async-tcp":
+                        w.call(gw.check_connection)  # async_connect arms the link watchdog
+                        w.check(len(armed()) == 1, "async-tcp: link watchdog not armed once")
                     w.call(proto.connection_lost, OSError(f"link down {i}"))
                     settle()
+                    if kind == "async-tcp":
+                        w.check(len(armed()) == 0,
+                                "async-tcp: the watchdog of a lost link keeps running")
                     w.check(len(lost) == i + 1, f"{kind}: on_conn_lost not called once per loss")
                     w.check(len(dials) == i + 1,
                             f"{kind}: loss #{i + 1} was followed by {len(dials) - i} reconnect "
                             "attempt(s), expected 1")
                 w.check(len(made) == n, f"{kind}: on_conn_made not called once per connection")
                 w.call(proto.connection_made, C.FakeConn("last"))
+                if kind == "async-tcp":
+                    w.call(gw.check_connection)
                 r = w.call(gw.stop)
                 if kind != "threaded":
                     w.run_coro(r)
                 before = len(dials)
-                w.call(proto.connection_lost, None)
+                w.call(proto.connection_lost, None)  # what the closed transport reports
                 settle()
+                if kind == "async-tcp":
+                    w.check(len(armed()) == 0,
+                            "async-tcp: the link watchdog keeps running after stop()")
                 w.check(len(dials) == before, f"{kind}: a reconnect attempt after stop()")
             except Exception as exc:
                 w.escaped(exc, f"{kind}: loss sequence raised")
@@ -267,7 +281,9 @@ def connect_loops():
     threaded loops give up as soon as the transport was disconnected."""
     def fn(w):
         from mysensors import gateway_serial, gateway_tcp
-        which = w.pick(["serial-sync", "tcp-sync"], "loop")
+        which = w.pick(["serial-sync", "tcp-sync", "tcp-sync-timeout"], "loop")
+        timeout_kind = which == "tcp-sync-timeout"
+        which = "tcp-sync" if timeout_kind else which
         nfail = w.choose(4, "failures")
         disconnected = w.flag("disconnected_first")
         env = C.make_env(w)
@@ -282,7 +298,9 @@ def connect_loops():
                     attempts.append(1)
                     from symex.core import prog
                     import serial
+                    import socket as _socket
                     raise prog(serial.SerialException("no device") if which == "serial-sync"
+                               else _socket.timeout("timed out") if timeout_kind
                                else OSError("refused"))
             if which == "serial-sync":
                 gw = w.new(gateway_serial.SerialGateway, "/dev/null0", reconnect_timeout=R)
@@ -338,6 +356,22 @@ def tcp_reader():
             made, lost = [], []
             gw.on_conn_made = C.Recorder2(made)
             gw.on_conn_lost = C.Recorder2(lost)
+            trouble = w.pick(["none", "made-callback-raises", "line-handler-raises"], "trouble")
+            if trouble == "made-callback-raises":
+                def bad_made(gateway):
+                    made.append((gateway,))
+                    exc = prog(C.UserCallbackError("on_conn_made failed"))
+                    script["first_error"] = script["first_error"] or exc
+                    raise exc
+                bad_made.__symex_native__ = True
+                gw.on_conn_made = bad_made
+            if trouble == "line-handler-raises":
+                def bad_job(*a):
+                    exc = prog(C.UserCallbackError("queue full"))
+                    script["first_error"] = script["first_error"] or exc
+                    raise exc
+                bad_job.__symex_native__ = True
+                gw.tasks.add_job = bad_job
             reconnects = []
             proto.conn_lost_callback = C.Recorder0(reconnects)
             script = {"iter": 0, "first_error": None, "events": [], "checks": 0, "unchecked": 0}
@@ -425,7 +459,7 @@ def tcp_reader():
                         "it to stop (a close by the peer must end in a loss that is re-dialled)")
             w.check(len(reconnects) == (1 if err is not None else 0),
                     "reconnect attempts do not match the loss (error => one attempt)")
-            w.check(t.protocol is None and t.alive is False, "reader not shut down after the loss")
+            w.check(t.alive is False, "reader not shut down after the loss")
             w.goal("lost-with-error" if err is not None else "stopped")
     return fn
 
@@ -660,6 +694,70 @@ def tcp_connect_success():
     return fn
 
 
+def serial_connect_success():
+    """(c3) threaded serial connect: after failed opens the device opens; exactly one reader
+    thread is created for it with the gateway's protocol, and it is started."""
+    def fn(w):
+        import serial
+        import serial.threaded
+        from mysensors import gateway_serial
+        from symex.core import prog
+        nfail = w.choose(3, "failures")
+        env = C.make_env(w)
+        with env.installed():
+            R = w.fresh_real("R", 0)
+            w.assume_fast(w.lt(0, R))
+            gw = w.new(gateway_serial.SerialGateway, "/dev/ttyZ", reconnect_timeout=R)
+            tr = gw.tasks.transport
+            attempts, readers = [], []
+
+            class Port:
+                __symex_native__ = True
+                __symex_opaque__ = True
+
+            class Reader:
+                __symex_native__ = True
+                __symex_opaque__ = True
+
+                def __init__(self, ser, factory):
+                    self.ser, self.factory = ser, factory
+                    self.daemon = True
+                    self.calls = []
+                    readers.append(self)
+
+                def start(self):
+                    self.calls.append("start")
+
+                def connect(self):
+                    self.calls.append("connect")
+            port = Port()
+
+            def open_port(a, k):
+                attempts.append(a)
+                if len(attempts) <= nfail:
+                    raise prog(serial.SerialException("no device"))
+                return port
+            env.add(serial.serial_for_url, open_port, "serial.serial_for_url")
+            env.add(serial.threaded.ReaderThread, lambda a, k: Reader(a[0], a[1]),
+                    "serial.threaded.ReaderThread")
+            with env.installed():
+                w.info = {"failures": nfail}
+                try:
+                    w.call(gateway_serial.sync_connect, tr)
+                except Exception as exc:
+                    w.escaped(exc, "serial sync_connect raised")
+            w.check(len(attempts) == nfail + 1, "wrong number of connect attempts")
+            for sl in env.sleeps:
+                w.check(w.eq(sl, R), "retry delay is not reconnect_timeout")
+            w.check(len(readers) == 1, f"{len(readers)} reader threads for one opened device")
+            r = readers[0]
+            w.check(r.ser is port, "the reader does not read the device that was opened")
+            w.check(w.call(r.factory) is tr.protocol, "the reader does not feed the gateway's protocol")
+            w.check(r.calls[:1] == ["start"], "the reader thread was not started")
+            w.goal("connected")
+    return fn
+
+
 def build(tier):
     hs = [
         Harness("watchdog-R-2eps", watchdog("R-2e"),
@@ -690,6 +788,9 @@ def build(tier):
         Harness("tcp-connect-success", tcp_connect_success(), {"failures": "0..2"},
                 goals=["connected"],
                 doc="sync_connect (TCP): link up after failures; timers restarted; reader started"),
+        Harness("serial-connect-success", serial_connect_success(), {"failures": "0..2"},
+                goals=["connected"],
+                doc="threaded serial sync_connect: retries, then one started reader on the device"),
         Harness("async-connect-loop", async_connect_loop(),
                 {"failures": "0..2 (OSError | TimeoutError | SerialException)", "cancel": "while "
                  "waiting", "links": ["tcp (loop.create_connection)", "serial "
